@@ -132,6 +132,12 @@ impl FileSystem for SimFs {
     }
     fn write_bytes(&self, path: &Path, contents: &[u8]) -> std::io::Result<()> {
         self.writes.set(self.writes.get() + 1);
+        // Step budget for writes: a recursive macro around \\dump would otherwise fill the
+        // simulated disk with megabyte-sized format files (the counter is reset for every line).
+        if self.writes.get() > 16 {
+            std::panic::resume_unwind(Box::new(BudgetExceeded));
+        }
+        crate::process::check_memory_budget();
         // Relative paths (as `\dump` produces) are resolved against the simulated cwd.
         let p = if path.is_absolute() {
             path.to_path_buf()
@@ -217,6 +223,8 @@ pub struct Env {
     pub token_budget: usize,
     /// Command references of the font selector built-ins, for `\the<font>` (set at boot/restore).
     pub font_refs: Vec<(u16, token::CommandRef)>,
+    /// Recoverable errors reported in the current line (budget).
+    pub recovered_errors: Cell<u64>,
 }
 
 impl Default for Env {
@@ -232,6 +240,7 @@ impl Default for Env {
             expansion_budget: 20_000,
             token_budget: 200_000,
             font_refs: Vec::new(),
+            recovered_errors: Cell::new(0),
         }
     }
 }
@@ -286,6 +295,9 @@ impl TexlangState for SimState {
         if n > env.expansion_budget {
             std::panic::resume_unwind(Box::new(BudgetExceeded));
         }
+        if n % 64 == 0 {
+            crate::process::check_memory_budget();
+        }
     }
 
     #[inline]
@@ -308,6 +320,15 @@ impl TexlangState for SimState {
         &self,
         recoverable_error: texlang::error::TracedTexError,
     ) -> Result<(), Box<dyn texlang::error::TexError>> {
+        // Step budget for recovered errors: a recursive macro that errs on every level logs an
+        // error with an ever deeper stack trace each time (quadratic memory). Such programs do
+        // not terminate in TeX either; 400 leaves room for the 100-error boundary and beyond.
+        let n = self.env.recovered_errors.get() + 1;
+        self.env.recovered_errors.set(n);
+        if n > 400 {
+            std::panic::resume_unwind(Box::new(BudgetExceeded));
+        }
+        crate::process::check_memory_budget();
         errormode::recoverable_error_hook(self, recoverable_error)
     }
 
@@ -404,6 +425,9 @@ impl vm::Handlers<SimState> for SinkHandlers {
         env.tokens.push(token);
         if env.tokens.len() > env.token_budget {
             std::panic::resume_unwind(Box::new(BudgetExceeded));
+        }
+        if env.tokens.len() % 1024 == 0 {
+            crate::process::check_memory_budget();
         }
         Ok(())
     }
